@@ -859,4 +859,12 @@ theorem tie_watchArgs :
     ∧ ∀ rev : Int, setupWatchRevGuard rev = decide (rev ≠ 0) := by
   refine ⟨by decide, by decide, by decide, fun rev => rfl⟩
 
+/-- `load`: the request context of an attempt is created INSIDE the retry loop, from the client's context, with
+RequestTimeout, is the one handed to the Get of that attempt, and is cancelled inside the loop (not deferred to the end
+of the function) — every attempt has a deadline of its own: `loadCtx true`, theorem
+`load_gives_every_attempt_a_fresh_deadline` (a WithTimeout at depth 0 is `loadCtx false`: its witness). -/
+theorem tie_loadFreshDeadline :
+    loadTimeoutLoopDepth = ["1"] ∧ loadCancelLoopDepth = ["1"] ∧ loadGetLoopDepth = ["1", "1"]
+    ∧ loadTimeoutArgs = ["cli.Ctx() | RequestTimeout"] := by decide
+
 end GoZero.C13.Tie
